@@ -379,12 +379,14 @@ pub fn selection_oracles(ctx: &mut Ctx) {
     use std::collections::HashSet;
     let ms: Vec<usize> = if ctx.quick() { vec![1, 2, 3, 8, 64, 500] } else { vec![1, 2, 3, 8, 64, 500, 4096, 20000] };
     let ncases = ctx.n(160, 3000);
-    for c in 0..ncases {
+    // thorough tier: four more cases (one per sketcher type) at m = 2^18, where an f32 value has only 32 grid points per bin
+    let nlarge = if ctx.quick() { 0 } else { 4 };
+    for c in 0..ncases + nlarge {
         let mut rng = ctx.rng.fork();
         let kind = c as usize % 4;
-        let m = ms[(c as usize / 4) % ms.len()];
+        let m = if c >= ncases { 1usize << 18 } else { ms[(c as usize / 4) % ms.len()] };
         // set sizes from 1 to ~3m; three of five cases sparse (n << m)
-        let nu = match c % 5 { 0 => 2, 1 => 2 + m / 50, 2 => 2 + m / 10, 3 => 2 + m, _ => 2 + rng.below(3 * m as u64 + 1) as usize };
+        let nu = if c >= ncases { 2 + m } else { match c % 5 { 0 => 2, 1 => 2 + m / 50, 2 => 2 + m / 10, 3 => 2 + m, _ => 2 + rng.below(3 * m as u64 + 1) as usize } };
         let u_items = gen_stream(&mut rng, nu);
         // A = first part, B = last part, overlapping in the middle
         let i1 = 1 + rng.below(nu as u64 - 1) as usize; // A = [0, i1)
@@ -415,6 +417,7 @@ pub fn selection_oracles(ctx: &mut Ctx) {
         let (wa, wb) = (da.u32view(), db.u32view());
         let desc = serde_json::json!({"alg":alg,"sfx":sfx,"m":m,"A":a_items.iter().take(30).collect::<Vec<_>>(),"B":b_items.iter().take(30).collect::<Vec<_>>(),"nA":a_items.len(),"nB":b_items.len()});
         let mut ncoll = 0usize;
+        let mut f32_ties = 0usize;
         for k in 0..m {
             if !ha.contains(&va[k]) || !hb.contains(&vb[k]) || !hu.contains(&vu[k]) {
                 ctx.oracle_failure(serde_json::json!({"kind":"impl_violates_property","what":"(M) a finished position shows a hash that is not in the set","k":k,"case":desc}));
@@ -430,6 +433,7 @@ pub fn selection_oracles(ctx: &mut Ctx) {
                 ctx.oracle_failure(serde_json::json!({"kind":"impl_violates_property","what":"(C) collision at a position is not the event 'the hash selected for the union is common to both sets'","k":k,"union":vu[k],"a":va[k],"b":vb[k],"case":desc}));
                 break;
             }
+            if !coll && fa[k] == fb[k] && sfx == "32" { f32_ties += 1; }
             if coll != (fa[k] == fb[k]) && sfx == "64" {
                 ctx.oracle_failure(serde_json::json!({"kind":"impl_violates_property","what":"float view and u64 view disagree on a collision (f64)","k":k,"case":desc}));
                 break;
@@ -438,6 +442,11 @@ pub fn selection_oracles(ctx: &mut Ctx) {
                 ctx.oracle_failure(serde_json::json!({"kind":"impl_violates_property","what":"equal u64 position but different float / u32 view","k":k,"case":desc}));
                 break;
             }
+        }
+        // f32 sketchers: two different items showing the same float at one position is a 2^-23 event per position;
+        // two or more in one pair of sketches means the float view no longer separates items
+        if f32_ties >= 2 {
+            ctx.oracle_failure(serde_json::json!({"kind":"impl_violates_property","what":"f32 float view shows equal values at positions whose u64 view holds different items (float view over-counts collisions)","positions":f32_ties,"case":desc}));
         }
         ctx.count(if ncoll == 0 { "sel collisions=0" } else if ncoll == m { "sel collisions=m" } else { "sel collisions=some" });
     }
